@@ -1,0 +1,10 @@
+//go:build verif
+
+package nebula
+
+import "github.com/slackhq/nebula/firewall"
+
+// VerifNewPacket exposes newPacket to the verification harness (engine pktparse).
+func VerifNewPacket(data []byte, incoming bool, fp *firewall.ParsedPacket) error {
+	return newPacket(data, incoming, fp)
+}
